@@ -228,15 +228,16 @@ theorem total_eq_lsum (p : Profile) : p.total = lsum (fun _ => 1) (stvInitState 
   unfold Profile.total totalWeight lsum stvInitState
   simp [List.map_map, Function.comp_def]
 
-/-- **C08 for the STV family (anonymity and representation independence).** Two profiles of untied
-ranked ballots over the same candidates that give every ranking the same total weight — one is a
-reordering of the other's ballots, or splits a ballot into identical ballots whose weights add up, or
-merges identical ballots — have, under the same tiebreak oracle, the same threshold and exactly the
-same rounds (elected, eliminated, remaining groups, tallies, recorded tiebreaks), or fail in the
-same way. Holds for the fractional and the full-weight transfer, for simultaneous election with
-any tiebreak and for one-by-one election with tiebreak `None` or `random`. -/
-theorem C08_stv_representation_invariant (cfg : STVCfg) (p p' : Profile) (ω : STVOracle)
-    (hnr : cfg.transfer ≠ .random) (hcfg : ProfileFreeChoice cfg) (hc : p.cands = p'.cands)
+/-- the run-level relation follows from the loop-level relation on the initial states -/
+theorem stv_invariant_of_loop (cfg : STVCfg) (p p' : Profile) (ω : STVOracle)
+    (hc : p.cands = p'.cands)
+    (hloopAll : firstPlaceVotes p = firstPlaceVotes p' →
+      RelTrace (stvLoop cfg p (threshold cfg.quota cfg.m p.total) ω (p.cands.length + 2) (stvInitState p)
+          (initialState p.cands (some (tallies (stvInitState p').bs p'.cands)))
+          [(initialState p.cands (some (tallies (stvInitState p').bs p'.cands)), stvInitState p)])
+        (stvLoop cfg p' (threshold cfg.quota cfg.m p.total) ω (p.cands.length + 2) (stvInitState p')
+          (initialState p.cands (some (tallies (stvInitState p').bs p'.cands)))
+          [(initialState p.cands (some (tallies (stvInitState p').bs p'.cands)), stvInitState p')]))
     (hle : LinEq (stvInitState p).bs (stvInitState p').bs)
     (hne : ∀ b ∈ p.ballots, b.ranking ≠ []) (hsingle : ∀ b ∈ p.ballots, ∀ s ∈ b.ranking, s.length = 1)
     (hcast : ∀ b ∈ p.ballots, ∀ c ∈ b.ranking.flatten, c ∈ p.cands)
@@ -266,11 +267,7 @@ theorem C08_stv_representation_invariant (cfg : STVCfg) (p p' : Profile) (ω : S
   split
   · simp [RelResult]
   · simp only [hf, hf', bind, Outcome.bind, ← htot, hsc]
-    have hS0 : SameCount (stvInitState p) (stvInitState p') := ⟨by simp [stvInitState, hc], rfl, hle⟩
-    have hloop := stvLoop_lineq cfg p p' (threshold cfg.quota cfg.m p.total) ω hnr hcfg hinit (p.cands.length + 2)
-      (stvInitState p) (stvInitState p') (initialState p.cands (some (tallies (stvInitState p').bs p'.cands)))
-      [(initialState p.cands (some (tallies (stvInitState p').bs p'.cands)), stvInitState p)]
-      [(initialState p.cands (some (tallies (stvInitState p').bs p'.cands)), stvInitState p')] hS0 (by simp)
+    have hloop := hloopAll hinit
     rw [← hc] at hloop ⊢
     cases h1 : stvLoop cfg p (threshold cfg.quota cfg.m p.total) ω (p.cands.length + 2) (stvInitState p)
         (initialState p.cands (some (tallies (stvInitState p').bs p.cands)))
@@ -313,6 +310,27 @@ theorem C08_stv_representation_invariant (cfg : STVCfg) (p p' : Profile) (ω : S
       | ok b => rw [h1, h2] at hloop; exact absurd hloop (by simp [RelTrace])
       | raised e => rw [h1, h2] at hloop; exact absurd hloop (by simp [RelTrace])
       | oracleMismatch => rw [h1, h2] at hloop; exact absurd hloop (by simp [RelTrace])
+
+/-- **C08 for the STV family (anonymity and representation independence).** Two profiles of untied
+ranked ballots over the same candidates that give every ranking the same total weight — one is a
+reordering of the other's ballots, or splits a ballot into identical ballots whose weights add up, or
+merges identical ballots — have, under the same tiebreak oracle, the same threshold and exactly the
+same rounds (elected, eliminated, remaining groups, tallies, recorded tiebreaks), or fail in the
+same way. Holds for the fractional and the full-weight transfer, for simultaneous election with
+any tiebreak and for one-by-one election with tiebreak `None` or `random`. -/
+theorem C08_stv_representation_invariant (cfg : STVCfg) (p p' : Profile) (ω : STVOracle)
+    (hnr : cfg.transfer ≠ .random) (hcfg : ProfileFreeChoice cfg) (hc : p.cands = p'.cands)
+    (hle : LinEq (stvInitState p).bs (stvInitState p').bs)
+    (hne : ∀ b ∈ p.ballots, b.ranking ≠ []) (hsingle : ∀ b ∈ p.ballots, ∀ s ∈ b.ranking, s.length = 1)
+    (hcast : ∀ b ∈ p.ballots, ∀ c ∈ b.ranking.flatten, c ∈ p.cands)
+    (hne' : ∀ b ∈ p'.ballots, b.ranking ≠ []) (hsingle' : ∀ b ∈ p'.ballots, ∀ s ∈ b.ranking, s.length = 1)
+    (hcast' : ∀ b ∈ p'.ballots, ∀ c ∈ b.ranking.flatten, c ∈ p'.cands) :
+    RelResult (stvRun cfg p ω) (stvRun cfg p' ω) := by
+  refine stv_invariant_of_loop cfg p p' ω hc ?_ hle hne hsingle hcast hne' hsingle' hcast'
+  intro hinit
+  have hS0 : SameCount (stvInitState p) (stvInitState p') := ⟨by simp [stvInitState, hc], rfl, hle⟩
+  exact stvLoop_lineq cfg p p' (threshold cfg.quota cfg.m p.total) ω hnr hcfg hinit (p.cands.length + 2)
+    (stvInitState p) (stvInitState p') _ _ _ hS0 (by simp)
 
 /-- reordering the ballots is a special case -/
 theorem C08_stv_ballot_order (p : Profile) (bs' : List Ballot) (h : p.ballots.Perm bs') :
